@@ -1,8 +1,61 @@
+import Corro.Model.Book
 import Driver.Util
-/-! Driver stub for C02: not built yet. -/
+/-! Line-protocol driver for C02: one origin actor's bookkeeping on one node.
+
+ops:  `insert <ranges>` · `partial <v> <lo-hi> <last_seq>` · `reload` · `sync`
+answer (state ops): `<status> gaps=… needed=… max=… dbv=… partials=v/last/ranges;… seqrows=v/s-e/last;…`
+answer (`sync`):    `sync head=… need=… pneed=v/ranges;…` -/
 namespace Driver.C02
-abbrev State := Unit
-def init : State := ()
-def step (st : State) (_toks : List String) : Option (State × String) := some (st, "bad-op")
+open Corro Corro.Book
+
+abbrev State := Node
+def init : State := Node.empty
+
+def showOpt : Option Nat → String
+  | none => "none"
+  | some x => toString x
+
+def showErr : DbErr → String
+  | .deleteMiss => "err delete-miss"
+  | .insertConflict => "err insert-conflict"
+  | .seqNonContiguous => "err seq-non-contiguous"
+  | .seqConflict => "err seq-conflict"
+
+def showState (st : Node) : String :=
+  let ps := st.book.partials.map (fun e => s!"{e.1}/{e.2.last}/{showRanges e.2.seqs}")
+  let sr := st.db.seqs.map (fun r => s!"{r.1}/{r.2.1}-{r.2.2.1}/{r.2.2.2}")
+  s!"gaps={showRanges st.db.gaps} needed={showRanges st.book.needed} max={showOpt st.book.max} " ++
+  s!"dbv={showOpt st.db.dbv} partials={showList ps ";"} seqrows={showList sr ";"}"
+
+def showSync (o : SyncOut) : String :=
+  let pn := o.partialNeed.map (fun e => s!"{e.1}/{showRanges e.2}")
+  s!"sync head={showOpt o.head} need={showRanges o.need} pneed={showList pn ";"}"
+
+/-- ranges handed to `RangeInclusiveSet` must be forward (the real crate panics otherwise);
+version 0 is outside the model (`start - 1` underflows in the real code). -/
+def okRanges (rs : List (Nat × Nat)) : Bool := !rs.isEmpty && rs.all (fun r => 1 ≤ r.1 && r.1 ≤ r.2)
+
+def step (st : State) (toks : List String) : Option (State × String) :=
+  match toks with
+  | ["insert", rs] => do
+    let rs ← rangeList? rs
+    if !okRanges rs then none else
+    match opInsert st rs with
+    | .ok st' => pure (st', "ok " ++ showState st')
+    | .error e => pure (st, showErr e ++ " " ++ showState st)
+  | ["partial", v, seqs, last] => do
+    let v ← v.toNat?; let seqs ← range? seqs; let last ← last.toNat?
+    if v = 0 then none else
+    match opPartial st v seqs last with
+    | .skipped => pure (st, "skip " ++ showState st)
+    | .invalid => pure (st, "invalid " ++ showState st)
+    | .failed e => pure (st, showErr e ++ " " ++ showState st)
+    | .done st' => pure (st', "ok " ++ showState st')
+  | ["reload"] =>
+    let st' := opReload st
+    some (st', "ok " ++ showState st')
+  | ["sync"] => some (st, showSync (generateSync st.book))
+  | _ => none
+
 end Driver.C02
 def main : IO Unit := Driver.runLoop Driver.C02.init Driver.C02.step
